@@ -79,7 +79,8 @@ class C11(Prop):
             xdt = "float64"
             if all(v.denominator == 1 for v in X) and rng.random() < 0.4:
                 xdt = rng.choice(["float32", "int32", "int64"])
-            yield {"stream": "fit", "f": f, "level": lv, "inc": rng.random() < 0.5, "xdtype": xdt, "X": [str(v) for v in X],
+            lists = xdt == "float64" and rng.random() < 0.15  # plain Python lists whose first element is a numpy integer scalar
+            yield {"stream": "fit", "f": f, "level": lv, "inc": rng.random() < 0.5, "xdtype": xdt, "lists": lists, "X": [str(v) for v in X],
                    "y": [str(v) for v in ys], "w": None if w is None else [str(v) for v in w],
                    "q": [str(v) for v in sorted(q)], "perm": perm}
 
@@ -91,8 +92,17 @@ class C11(Prop):
         w = None if case.get("w") is None else np.array([float(Fraction(v)) for v in case["w"]])
         q = np.array([float(Fraction(v)) for v in case["q"]])
         lv = ic.level_float(case["level"])
+        Xf, yf, wf = X, y, w
+        if case.get("lists"):
+            def as_list(a):
+                out = [float(v) for v in a]
+                if out and out[0].is_integer():
+                    out[0] = np.int64(int(out[0]))  # polars infers the dtype of a list from its first element
+                return out
+
+            Xf, yf, wf = as_list(X), as_list(y), None if w is None else as_list(w)
         try:
-            m = IsotonicRegression(increasing=case["inc"], functional=case["f"], level=lv).fit(X, y, sample_weight=w)
+            m = IsotonicRegression(increasing=case["inc"], functional=case["f"], level=lv).fit(Xf, yf, sample_weight=wf)
             out = {"tx": [float(v) for v in m.X_thresholds_], "ty": [float(v) for v in m.y_thresholds_],
                    "pred": [float(v) for v in np.atleast_1d(m.predict(q))],
                    "train": [float(v) for v in np.atleast_1d(m.predict(X))]}
